@@ -39,7 +39,7 @@ class Profile:
         self.ops = kw.get("ops", {
             "extend": 5, "wextend": 2, "owextend": 2, "project": 2, "select_rows": 3, "select_columns": 1,
             "drop_columns": 1, "rename_columns": 1, "map_columns": 1, "order_rows": 1, "natural_join": 2,
-            "concat_rows": 1,
+            "concat_rows": 1, "convert_records": 1,
         })
         self.jointypes = kw.get("jointypes", ["inner", "left", "right", "full", "cross"])
         self.final_order_p = kw.get("final_order_p", 0.25)
@@ -583,6 +583,34 @@ class Gen:
         step = {"op": "concat_rows", "id_column": idc, "a_name": rng.choice(["a", "left"]), "b_name": rng.choice(["b", "right"])}
         return step, other
 
+    def step_convert_records(self, st):
+        """row records -> block records (unpivot) of 2-4 numeric columns, keyed by the unique uid column"""
+        rng = self.rng
+        if "uid" not in st.frame.columns or st.has_null("uid") or st.frame["uid"].duplicated().any():
+            return None
+        nums = [c for c in st.cols(("i", "f")) if c != "uid" and str(c).isidentifier()]
+        if len(nums) < 2:
+            return None
+        k = rng.choice([2, 2, 3, 4]) if len(nums) >= 4 else (rng.choice([2, 3]) if len(nums) >= 3 else 2)
+        content = rng.sample(nums, k)
+        if k == 4 and rng.random() < 0.5:
+            nrows, nvals = 2, 2
+        else:
+            nrows, nvals = k, 1
+        self.fresh += 1
+        kc = "rk%d" % self.fresh
+        vcols = ["rv%d_%d" % (self.fresh, j) for j in range(nvals)]
+        rows = []
+        it = iter(content)
+        for i in range(nrows):
+            rows.append(["key%d" % i] + [next(it) for _ in range(nvals)])
+        spec = {"record_keys": ["uid"], "control_table_keys": [kc], "control_table": {"cols": [kc] + vcols, "rows": rows},
+                "strict": True}
+        kinds = {"uid": "i", kc: "s"}
+        for v in vcols:
+            kinds[v] = "f"
+        return {"op": "convert_records", "record_map": {"blocks_in": None, "blocks_out": spec, "strict": True}}, kinds
+
     # --------------------------------------------------------------- driver
     def pipeline_state(self, depth, allow_binary=True, start=None):
         rng = self.rng
@@ -620,6 +648,8 @@ class Gen:
                     r = self.step_map_columns(st)
                 elif kind == "order_rows":
                     r = self.step_order_rows(st)
+                elif kind == "convert_records":
+                    r = self.step_convert_records(st)
                 elif kind == "natural_join":
                     r = self.step_join(st, depth - steps_done)
                     if r is not None:
@@ -691,6 +721,8 @@ class Gen:
         elif op == "concat_rows":
             if step.get("id_column"):
                 k[step["id_column"]] = "s"
+        elif op == "convert_records":
+            k = dict(newkinds)
         k = {c: k[c] for c in fr.columns if c in k}
         if set(k) != set(fr.columns):
             return None
